@@ -55,7 +55,7 @@ pub mod brush_parser {
         #[derive(Clone, Copy)]
         pub struct SubPiece { pub start_index: usize, pub end_index: usize }
         pub struct SubIter { s: Sub, i: usize }
-        impl Iterator for SubIter { type Item = SubPiece; fn next(&mut self) -> Option<SubPiece> { let i = self.i; self.i += 1; if i >= self.s.n { None } else if i == 0 { Some(SubPiece { start_index: self.s.a.0, end_index: self.s.a.1 }) } else { Some(SubPiece { start_index: self.s.b.0, end_index: self.s.b.1 }) } } }
+        impl Iterator for SubIter { type Item = SubPiece; fn next(&mut self) -> Option<SubPiece> { let i = self.i; self.i += 1; if i >= 2 { None } else if i >= self.s.n { None } else if i == 0 { Some(SubPiece { start_index: self.s.a.0, end_index: self.s.a.1 }) } else { Some(SubPiece { start_index: self.s.b.0, end_index: self.s.b.1 }) } } }
         impl IntoIterator for Sub { type Item = SubPiece; type IntoIter = SubIter; fn into_iter(self) -> SubIter { SubIter { s: self, i: 0 } } }
         #[derive(Clone, Copy)]
         pub enum WordPiece {
@@ -69,11 +69,15 @@ pub mod brush_parser {
 use brush_parser::word::{Sub, SubPiece, Txt, WordPiece, WordPieceWithSource};
 use brush_parser::{Loc, Pos, Token, W};
 
+// NOTE: every stand-in iterator ends at a *concrete* index (i >= 2) before consulting its symbolic length: CBMC unrolls a loop whose
+// exit depends on a symbolic value up to the unwind bound, which multiplied the 11-arm piece match 64 times (14 GB).
 // ---------------------------------------------------------------- duck-typed highlighter
 /// an ASCII line of `n` bytes seen through the slice of the `str` API highlight_program uses (character index = byte index)
 pub struct LineStr { pub n: usize }
 pub struct CharIdx { pub i: usize, pub n: usize }
-impl Iterator for CharIdx { type Item = (usize, char); fn next(&mut self) -> Option<(usize, char)> { if self.i < self.n { let i = self.i; self.i += 1; Some((i, 'a')) } else { None } } }
+impl Iterator for CharIdx { type Item = (usize, char); fn next(&mut self) -> Option<(usize, char)> { if self.i < self.n { let i = self.i; self.i += 1; Some((i, 'a')) } else { None } }
+    // exact size hint: `collect()` then allocates once instead of growing the vector (realloc + memcpy with symbolic sizes)
+    fn size_hint(&self) -> (usize, Option<usize>) { (self.n - self.i, Some(self.n - self.i)) } }
 impl LineStr {
     pub fn char_indices(&self) -> CharIdx { CharIdx { i: 0, n: self.n } }
     pub fn len(&self) -> usize { self.n }
@@ -88,9 +92,9 @@ impl SpanRec { pub fn push(&mut self, s: HighlightSpan) { if !(s.range.start == 
 pub struct Hl { pub input_line: LineTok, pub cursor: usize, pub spans: SpanRec, pub current_byte_index: usize, pub next_missing_kind: Option<HighlightKind> }
 
 pub struct PieceList { pub n: usize, pub a: WordPieceWithSource, pub b: WordPieceWithSource, pub i: usize }
-impl Iterator for PieceList { type Item = WordPieceWithSource; fn next(&mut self) -> Option<WordPieceWithSource> { let i = self.i; self.i += 1; if i >= self.n { None } else if i == 0 { Some(self.a) } else { Some(self.b) } } }
+impl Iterator for PieceList { type Item = WordPieceWithSource; fn next(&mut self) -> Option<WordPieceWithSource> { let i = self.i; self.i += 1; if i >= 2 { None } else if i >= self.n { None } else if i == 0 { Some(self.a) } else { Some(self.b) } } }
 pub struct TokenList { pub n: usize, pub a: Token, pub b: Token, pub i: usize }
-impl Iterator for TokenList { type Item = Token; fn next(&mut self) -> Option<Token> { let i = self.i; self.i += 1; if i >= self.n { None } else if i == 0 { Some(self.a) } else { Some(self.b) } } }
+impl Iterator for TokenList { type Item = Token; fn next(&mut self) -> Option<Token> { let i = self.i; self.i += 1; if i >= 2 { None } else if i >= self.n { None } else if i == 0 { Some(self.a) } else { Some(self.b) } } }
 
 pub struct HOracle { pub tok_err: bool, pub ntok: usize, pub t: [(bool, usize, usize); 2], pub parse_err: [bool; 2], pub np: [usize; 2], pub p: [[(u8, usize, usize); 2]; 2], pub words_parsed: usize, pub kinds: u8, pub nested_ok: bool }
 fn any_kind() -> HighlightKind { match kani::any::<u8>() % 4 { 0 => HighlightKind::Default, 1 => HighlightKind::Keyword, 2 => HighlightKind::Builtin, _ => HighlightKind::Assignment } }
@@ -195,10 +199,11 @@ fn program_harness(max_tok: usize, max_pieces: usize) {
         let (ts, te) = if w == 0 { (s0, e0) } else { (s1, e1) };
         let wl = te - ts;
         o.np[w] = kani::any(); kani::assume(o.np[w] <= max_pieces);
-        let (k0, k1): (u8, u8) = (any_below3(), any_below3());
         let (a, b, c, d): (usize, usize, usize, usize) = (kani::any(), kani::any(), kani::any(), kani::any());
         kani::assume(a <= b && b <= c && c <= d && d <= wl);
-        o.p[w] = [(leaf_kind(k0), a, b), (leaf_kind(k1), c, d)];
+        // pieces are plain text here (concrete kind): what each of the 11 kinds does to the cursor is decided by vk_c19_word_piece_step,
+        // whose post-condition (cursor at the end of the piece, tiling intact) is all this loop relies on
+        o.p[w] = [(0, a, b), (0, c, d)];
         w += 1;
     }
     t_program(&mut hl, &line, 0, &mut o);
@@ -211,12 +216,12 @@ fn program_harness(max_tok: usize, max_pieces: usize) {
 }
 fn any_below3() -> u8 { let v: u8 = kani::any(); kani::assume(v < 3); v }
 
-//@proof {'props': ['C19'], 'tier': 'quick', 'timeout': 1200, 'uses': ['append_span', 'skip_ahead', 'set_missing', 'word_piece', 'program'], 'bounds': 'a 6-byte ASCII line; tokenizer error, or 0..1 token (operator / word) at a symbolic in-range character range; the word: parse error or 0..2 leaf pieces (text / quoted / parameter) at symbolic in-order offsets inside the word', 'desc': 'highlight_program on a whole line with one token: whatever the token and piece layout (within the offset contract), the spans are ordered, contiguous, non-empty and cover exactly [0, len) - rendering the spans reproduces the line; a tokenizer error yields one span over the whole line'}
+//@proof {'props': ['C19'], 'tier': 'quick', 'timeout': 1200, 'uses': ['append_span', 'skip_ahead', 'set_missing', 'word_piece', 'program'], 'bounds': 'a 6-byte ASCII line; tokenizer error, or 0..1 token (operator / word) at a symbolic in-range character range; the word: parse error or 0..2 text pieces at symbolic in-order offsets inside the word (the other piece kinds: vk_c19_word_piece_step)', 'desc': 'highlight_program on a whole line with one token: whatever the token and piece layout (within the offset contract), the spans are ordered, contiguous, non-empty and cover exactly [0, len) - rendering the spans reproduces the line; a tokenizer error yields one span over the whole line'}
 #[kani::proof]
 #[kani::unwind(8)]
 fn vk_c19_program_one_token() { program_harness(1, 2); }
 
-//@proof {'props': ['C19'], 'tier': 'quick', 'timeout': 1200, 'uses': ['append_span', 'skip_ahead', 'set_missing', 'word_piece', 'program'], 'bounds': 'a 6-byte ASCII line; 0..2 tokens at symbolic in-order ranges; each word: parse error or 0..1 leaf piece', 'desc': 'highlight_program with two tokens: gaps before, between and after the tokens are filled; coverage of [0, len) as above'}
+//@proof {'props': ['C19'], 'tier': 'quick', 'timeout': 1200, 'uses': ['append_span', 'skip_ahead', 'set_missing', 'word_piece', 'program'], 'bounds': 'a 6-byte ASCII line; 0..2 tokens at symbolic in-order ranges; each word: parse error or 0..1 text piece', 'desc': 'highlight_program with two tokens: gaps before, between and after the tokens are filled; coverage of [0, len) as above'}
 #[kani::proof]
 #[kani::unwind(8)]
 fn vk_c19_program_two_tokens() { program_harness(2, 1); }
